@@ -271,6 +271,9 @@ var calleeForms = []struct{ name, decl, call, p string }{
 	{"closure-parameter", "$f = function($p, $w) { MUT return 1; };", "$f($a, $w);", "$p"},
 	{"closure-capture", "", "$f = function($w) use ($a) { MUT return 1; }; $f($w);", "$a"},
 	{"arrow-parameter-then-call", "function cw($p, $w) { MUT return 1; } $g = fn($p, $w) => cw($p, $w);", "$g($a, $w);", "$p"},
+	// the loop variable of a by-value foreach over rows holding the array
+	{"foreach-value", "", "$rows = [$a, $a]; foreach ($rows as $row) { MUT } $a2 = $rows[0];", "$row"},
+	{"foreach-key-value", "", "$rows = [\"r\" => $a]; foreach ($rows as $k => $row) { MUT }", "$row"},
 }
 
 // H_callee_writes: (shape) x (how the array reaches the callee) x (what the callee does to it).
